@@ -533,6 +533,7 @@ READ_VARIANTS = [
     "bed4+track",
     "interval",
     "interval+header",
+    "interval+strands",
     "text",
     "text+label",
     "text+label-space",
@@ -604,6 +605,11 @@ def run_read(case, ctx):
     p = put("mh.interval_list", F.write_interval(rows, header=True))
     r = explicit("interval+header", p, "interval", ["gene"])
     auto("interval+header", "interval", r, p)
+    # strands as tabio's own writer emits them for a table read from BED: '.', then '-', '+' (labels are never numeric,
+    # so such a line is not a well-formed BED5 line)
+    p = put("ms.interval_list", F.write_interval([dict(x, strand=".-+"[i % 3]) for i, x in enumerate(rows)]))
+    r = explicit("interval+strands", p, "interval", ["gene"])
+    auto("interval+strands", "interval", r, p)
     # chr:start-end text
     p = put("m.txt", F.write_text(rows))
     r = explicit("text", p, "text", [])
